@@ -126,7 +126,17 @@ func (encryptor *HashQuery) OnQuery(ctx context.Context, query mysql.OnQueryObje
 				},
 			}
 
-			rVal.Type = sqlparser.HexNum
+			// the hash is written as a hex number (0x...): bring the literal itself into that form first,
+			// decoded according to its own type, so that the value that gets hashed is the value the literal
+			// denotes (X'4142' is the bytes "AB", '0x41' is the four characters "0x41")
+			if rawData, err := encryptor.coder.Decode(rVal, item.Setting); err == nil {
+				rVal.Type = sqlparser.HexNum
+				if coded, err := encryptor.coder.Encode(rVal, rawData, item.Setting); err == nil {
+					rVal.Val = coded
+				}
+			} else {
+				rVal.Type = sqlparser.HexNum
+			}
 		}
 
 		// substring(column, 1, <HMAC_size>) = 'value' ===> substring(column, 1, <HMAC_size>) = <HMAC('value')>
@@ -185,7 +195,10 @@ func (encryptor *HashQuery) OnBind(ctx context.Context, statement sqlparser.Stat
 		case *sqlparser.SQLVal:
 			var err error
 			index, err := mysql.ParsePlaceholderIndex(value)
-			if err != nil {
+			if err == encryptor_base.ErrInvalidPlaceholder {
+				// a literal, not a placeholder: there is no value to bind (OnQuery already hashed the literal)
+				continue
+			} else if err != nil {
 				return values, false, err
 			}
 			if index >= len(values) {
